@@ -5,7 +5,7 @@ theorem self_ne_append (c s : String) (hs : s ≠ "") : c ≠ c ++ s := fun h =>
 
 theorem globals_aliasStmts (api : Api) (cur : Name) (a : Alias) :
     (aliasStmts api cur a).flatMap Stmt.globals
-      = (a.name ++ "_validator") :: (if aliasEndsInUser api api.nAliases a.ty then [a.name] else []) := by
+      = (fmtClass a.name ++ "_validator") :: (if aliasEndsInUser api api.nAliases a.ty then [a.name] else []) := by
   simp only [aliasStmts, List.flatMap_append, List.flatMap_cons, List.flatMap_nil, globals_assign_none]
   by_cases hr : a.redact <;> by_cases he : aliasEndsInUser api api.nAliases a.ty = true
   all_goals simp [hr, he]
@@ -22,15 +22,15 @@ theorem sec_aliases {api : Api} (hapi : apiWF api = true) {ns : Namespace} (hns 
     (fun hle h => ⟨h.1.mono hle, fun d hd => (h.2 d hd).mono hle⟩) (fun hle h => h.mono hle) ns.aliases ?_
     hnd st hwf ⟨hctx, hcls⟩ hfresh
   intro pre a post hsplit st hwf ⟨hctx, hcls⟩ hpre hfr
-  obtain ⟨htok, hfix, hal⟩ := aliasWF_at hapi hns hsplit
+  obtain ⟨htok, hfixc, hal⟩ := aliasWF_at hapi hns hsplit
   have hsub : ∀ y ∈ pre, y ∈ ns.aliases := fun y hy => by rw [hsplit]; exact List.mem_append_left _ hy
   -- names bound by this item
   rw [globals_aliasStmts] at hfr
-  have hfr_v : st.global? (modName ns) (a.name ++ "_validator") = none :=
+  have hfr_v : st.global? (modName ns) (fmtClass a.name ++ "_validator") = none :=
     hfr _ List.mem_cons_self
   -- (1) the validator
   have hready := ready_tyRefs hapi hns hctx hcls pre hpre a.ty htok hal
-  obtain ⟨st1, v1, hs1, hg1, _, hc1, ha1⟩ := steps_assign_glob (cur := modName ns) (t := a.name ++ "_validator")
+  obtain ⟨st1, v1, hs1, hg1, _, hc1, ha1⟩ := steps_assign_glob (cur := modName ns) (t := fmtClass a.name ++ "_validator")
     (cp := match a.ty with
       | .user ns' n => some (qual ns.name ns' (fmtClass n ++ "_validator"))
       | .alias ns' n => some (qual ns.name ns' (fmtClass n ++ "_validator"))
@@ -48,12 +48,12 @@ theorem sec_aliases {api : Api} (hapi : apiWF api = true) {ns : Namespace} (hns 
     hfr_v hctx.started
   -- (2) the redactor
   have step2 : ∃ st2, Steps st1 (modName ns)
-      (if a.redact then [Stmt.assign (a.name ++ "_validator") (some "_redact") none [here (a.name ++ "_validator")]]
+      (if a.redact then [Stmt.assign (fmtClass a.name ++ "_validator") (some "_redact") none [here (fmtClass a.name ++ "_validator")]]
        else []) st2 ∧ st2.globals = st1.globals := by
     by_cases hr : a.redact = true
     · simp only [hr, if_true]
-      obtain ⟨st2, hs2, hg2, _, _⟩ := steps_assign_attr (cur := modName ns) (t := a.name ++ "_validator")
-        (a := "_redact") (cp := none) (uses := [here (a.name ++ "_validator")]) hs1.wf
+      obtain ⟨st2, hs2, hg2, _, _⟩ := steps_assign_attr (cur := modName ns) (t := fmtClass a.name ++ "_validator")
+        (a := "_redact") (cp := none) (uses := [here (fmtClass a.name ++ "_validator")]) hs1.wf
         (fun r hr => by simp only [List.mem_singleton] at hr; subst hr; exact ready_here_global hg1)
         (by simp [hg1])
       exact ⟨st2, hs2, hg2⟩
@@ -61,14 +61,15 @@ theorem sec_aliases {api : Api} (hapi : apiWF api = true) {ns : Namespace} (hns 
       exact ⟨st1, Steps.nil hs1.wf, rfl⟩
   obtain ⟨st2, hs2, hgl2⟩ := step2
   have hs12 := hs1.append hs2
-  have hg2 : st2.global? (modName ns) (a.name ++ "_validator") = some v1 := by
+  have hg2 : st2.global? (modName ns) (fmtClass a.name ++ "_validator") = some v1 := by
     rw [global?_congr hgl2]; exact hg1
   have hvalid : ∀ st', Le st2 st' → (st'.global? (modName ns) (fmtClass a.name ++ "_validator")).isSome = true := by
     intro st' hle
-    rw [hfix, hle.glob _ _ _ hg2]; rfl
+    rw [hle.glob _ _ _ hg2]; rfl
   -- (3) the class alias
   by_cases hends : aliasEndsInUser api api.nAliases a.ty = true
-  · have hshape := aliasEndsInUser_shape hends
+  · have hfix := hfixc hends
+    have hshape := aliasEndsInUser_shape hends
     have hfr_a : st.global? (modName ns) a.name = none := hfr _ (by simp [hends])
     have key : ∀ ns' n', (a.ty = .user ns' n' ∨ a.ty = .alias ns' n') →
         ∃ st3, Steps st2 (modName ns)
@@ -84,15 +85,15 @@ theorem sec_aliases {api : Api} (hapi : apiWF api = true) {ns : Namespace} (hns 
       have hfr2 : st2.global? (modName ns) a.name = none := by
         rw [hs12.frame _ _ (fun _ => ?_)]
         · exact hfr_a
-        · have : (([Stmt.assign (a.name ++ "_validator") none
+        · have : (([Stmt.assign (fmtClass a.name ++ "_validator") none
               (match a.ty with
                 | .user ns' n => some (qual ns.name ns' (fmtClass n ++ "_validator"))
                 | .alias ns' n => some (qual ns.name ns' (fmtClass n ++ "_validator"))
                 | _ => none) (tyRefs ns.name a.ty)] ++
-              (if a.redact then [Stmt.assign (a.name ++ "_validator") (some "_redact") none
-                [here (a.name ++ "_validator")]] else [])).flatMap Stmt.globals) = [a.name ++ "_validator"] := by
+              (if a.redact then [Stmt.assign (fmtClass a.name ++ "_validator") (some "_redact") none
+                [here (fmtClass a.name ++ "_validator")]] else [])).flatMap Stmt.globals) = [fmtClass a.name ++ "_validator"] := by
             by_cases hr : a.redact = true <;> simp [hr]
-          rw [this]
+          rw [this, hfix]
           simp only [List.mem_singleton]
           exact self_ne_append _ _ (by decide)
       obtain ⟨st3, v3, hs3, hg3, hres3, _, _⟩ := steps_assign_glob (cur := modName ns) (t := a.name)
